@@ -784,13 +784,70 @@ class Models:
                 keep = [keep[int(j * step)] for j in range(per_path)]
             if keep:
                 st["covered"] += 1
+            elif allm:
+                st["uncovered"].append((i, "only unparseable-by-construction shapes"))
             else:
-                st["uncovered"].append((i, "no model" if not allm else "only unparseable-by-construction shapes"))
+                st["uncovered"].append((i, self.classify_unreached(tid, p)))
             out += [(i, m) for m in keep]
         st["models"] = len(out)
         self.stats[tid] = st
         self._models[tid] = out
         return out
+
+    def classify_unreached(self, tid, path):
+        """Why no value reaches a path: its integer constraints are contradictory ("infeasible"),
+        satisfiable only outside the field's domain ("outside domain"), or satisfiable - then the
+        model finder is to blame ("no model")."""
+        cons = {}
+        for a, truth in path.pc:
+            if a[0] != "cmp":
+                continue
+            x, y, op = a[2], a[3], a[1]
+            if y[0] == "S" and x[0] == "C":
+                x, y = y, x
+                op = {"Lt": "Gt", "Gt": "Lt", "Le": "Ge", "Ge": "Le"}.get(op, op)
+            if not (x[0] == "S" and x[1][0] in ("fld", "elem", "var") and y[0] == "C" and isinstance(y[1], int) and not isinstance(y[1], bool)):
+                continue
+            if not truth:
+                op = {"Eq": "Ne", "Ne": "Eq", "Lt": "Ge", "Ge": "Lt", "Gt": "Le", "Le": "Gt"}[op]
+            cons.setdefault(x[1], []).append((op, y[1]))
+        verdict = "no model"
+        for term, cs in cons.items():
+            try:
+                ty, owner, field = self.type_of(term, tid)
+                k = self.kind(ty)
+            except ModelError:
+                continue
+            if k[0] != "int":
+                continue
+            tlo, thi = INT_TYPES[k[1]]
+            dlo, dhi, _ = self.dom.ints(owner, field, k[1])
+
+            def feasible(lo, hi):
+                excl = set()
+                for op, c in cs:
+                    if op == "Eq":
+                        lo, hi = max(lo, c), min(hi, c)
+                    elif op == "Ne":
+                        excl.add(c)
+                    elif op == "Gt":
+                        lo = max(lo, c + 1)
+                    elif op == "Ge":
+                        lo = max(lo, c)
+                    elif op == "Lt":
+                        hi = min(hi, c - 1)
+                    elif op == "Le":
+                        hi = min(hi, c)
+                if lo > hi:
+                    return False
+                if hi - lo < 64:
+                    return any(v not in excl for v in range(lo, hi + 1))
+                return True
+            if not feasible(tlo, thi):
+                return "infeasible"
+            if not feasible(max(tlo, dlo), min(thi, dhi)):
+                verdict = "outside domain"
+        return verdict
 
     def deep_feasible(self, tid, v):
         """The value and every AST node inside it has a shape some parse can produce."""
